@@ -111,7 +111,7 @@ def _cases(seed, kmax, per_cfg, pool_size):
     # heavy configurations (max_iter 50/20) are spread over the worker chunks
     order = np.random.default_rng(seed + 1).permutation(len(out))
     # a requested nu of exactly 0 (use the whole budget): 24 of the cases without the LP step, re-run with nu = 0.0 and max_iter 20
-    zero_nu = [c[:7] + (20,) + c[8:10] + (0.0,) + c[11:] for c in out if not c[8]][:24]
+    zero_nu = [c[:7] + (20,) + c[8:10] + (0.0,) + c[11:] for c in out if not c[8]][:24] + [c[:7] + (20,) + c[8:10] + (0.0,) + c[11:] for c in out if c[8]][:24]
     return EDGE + zero_nu + [out[i] for i in order]
 
 
@@ -187,6 +187,9 @@ def _check(case):
 
     # ---- early stop
     if n_iter < max_iter:
+        if nu is not None and nu == 0 and not g < 0:
+            # a requested threshold of exactly 0 can never be undercut by a (non-negative) gap: fitting must use the whole budget
+            return viol("early-stop:gap-not-below-nu", f"stopped after {n_iter} < max_iter iterations although nu=0 was requested (best_gap_={g!r} is not below 0)", best_gap=g)
         if nu is not None and not g < nu + 1e-12:
             return viol("early-stop:gap-not-below-nu", f"stopped after {n_iter} < max_iter iterations but best_gap_={g!r} >= requested nu={nu!r}", best_gap=g)
         if not g < nu_used + 1e-12:
